@@ -700,8 +700,13 @@ pub fn run(ctx: &Arc<Ctx>) {
     let limit = Duration::from_secs(ctx.tier.pick(5, 10));
     ctx.set_rule("entry points: SM2 verify (signature and message), raw decryption (2 orders x 2 encodings), ASN.1 decryption, public/private key decoders for bytes, hex, DER and PEM, SM4 cipher construction, block encrypt/decrypt, mode construction and mode decryption (data and IV), SM9 decryption, SM9 verification (h and S from bytes, affine / Jacobian / infinity), identities of every length 0..=300 through SM9 decryption / verification / extraction and SM2 verification, mod_n_from_hash, the SM2 KDF, and (the property's anchors name eea.rs / eia.rs) ZUC / EEA3 / EIA3 construction from key and IV bytes and message buffers shorter than LENGTH; per byte-string parameter every length 0..=200 (0..=400 for SM9 decryption) x {0x00, 0xFF, seeded}; for each valid encoding (SM2 / SM9 ciphertexts also with a body of 32 and 64 bytes, the KDF block boundary) every truncation, every single-byte corruption (4 kinds per position) and trailing bytes; hex strings of every length 0..=140 and a non-hex character at every position; well-formed PKCS#8 documents whose private-key octets have every length 0..=40 and {48,64,127,128,255,256}; PEM truncations and corruptions, every permutation of a PEM document's lines, each line dropped / doubled, fused, stray and missing armour lines, surrounding text (through from_public_key_pem, str::parse and from_pkcs8_pem); raw SM2 ciphertexts and public keys of every length under every SEC1 tag byte {02,03,04,06,07}, and each ciphertext form presented (whole and truncated) to the entry points for the other forms; boundary private keys {0,1,n-2,n-1,n,2^256-1}: whatever the constructor accepts must sign, encrypt (also the empty message and 32- / 64-byte messages), decrypt and run a key agreement to completion; SM9 encrypt / sign / exchange with valid keys over lengths {1,31,32,33,64,96,128,255}; inputs of 64 KiB + 16, 1 MiB + 16 and 4 MiB + 21 bytes through mode encryption / decryption and as the message of SM2 verification. Each call runs in a child process under panic capture and a wall-clock watchdog. Oracle: outcome in {Ok, Err}; panic, overflow, abort and time-out are violations (whether an Ok was deserved is judged by C04/C06/C07/C19).");
     ctx.note_bound(format!("{} calls, watchdog {} s per call", cs.len(), limit.as_secs()));
-    ctx.sample(serde_json::to_value(&cs[10]).unwrap());
-    ctx.sample(serde_json::to_value(&cs[cs.len() - 1]).unwrap());
+    // evidence samples: short cases only (the long-input cases carry megabytes of hex)
+    if let Some(c) = cs.iter().find(|c| c.data.len() <= 400 && c.family.starts_with("sweep")) {
+        ctx.sample(serde_json::to_value(c).unwrap());
+    }
+    if let Some(c) = cs.iter().rev().find(|c| c.data.len() <= 400) {
+        ctx.sample(serde_json::to_value(c).unwrap());
+    }
     let exe = std::env::current_exe().expect("current exe");
     let workers = std::thread::available_parallelism().map(|n| n.get()).unwrap_or(4);
     let chunk = (cs.len() + workers * 8 - 1) / (workers * 8);
